@@ -121,6 +121,8 @@ def encMovabs := 3
 def encEnqcmdMovdir64b := 4
 def encMemSizeRequired := 5   -- X86Arith, Bt, Crc, IncDec, Ins, M_GPB, M_GPB_MulDiv, Mov, Outs, Pop, Rot, StrMm, Test
 def encImul := 6
+def encCvtsi2sd := 7             -- vcvtsi2sd, vcvtusi2sd (by instruction id)
+def encVcmpScalar := 8           -- vcmpsd, vcmpss (by instruction id)
 def sregIdEs := 1
 def gpIdBx := 3
 def gpIdSp := 4
@@ -581,6 +583,12 @@ def tailStage (R : ResolvedInst) (inst : Inst) (operands : List Operand) (combin
         else if test options optZMask && (match given with | .mem .. :: _ => true | _ => false) then .invalidKZeroUse
         else if test options (optSAE ||| optER) then
           if memOp.isSome then .invalidEROrSAE
+          -- (fix C01-14 / fixes/C13-13) vcvtsi2sd|vcvtusi2sd: embedded rounding only with a 64-bit integer source
+          else if R.enc == encCvtsi2sd && given.length == 3 &&
+                  (match given.getD 2 .none with | .reg t _ => t == rtGp32 | _ => false) then .invalidEROrSAE
+          -- (fixes/C13-13) vcmpsd|vcmpss: {sae} belongs to the EVEX form, whose destination is a mask register
+          else if R.enc == encVcmpScalar && given.length ≥ 1 &&
+                  (match given.getD 0 .none with | .reg t _ => t != rtMask | _ => true) then .invalidEROrSAE
           else if test options optER && !test avx avxER then .invalidEROrSAE
           else if !test options optER && !test avx avxSAE then .invalidEROrSAE
           else if test avx (avxB16 ||| avxB32 ||| avxB64) && !isZmmOrM512 (operands.getD 0 .none) && !isZmmOrM512 (operands.getD 1 .none)
